@@ -27,6 +27,13 @@ def handle (toks : List String) : Option String :=
       | .err p => "err " ++ pathStr p
       | .panic => "panic"
     | _, _ => "bad-op"
+  | ["F", spec, "history", _, a2] =>
+    -- two writes to one field object through two writers (SetValue, SetBytes, Unpack, JSON, Marshal …)
+    -- with a look at the field in between: the field holds the second value, Pack encodes it
+    some <| match (Tree.ofString spec).bind fieldOfTree,
+        (Tree.ofString (":".intercalate ((a2.splitOn ":").drop 1))).bind valueOfTree with
+    | some f, some v => showRes (f.pack v)
+    | _, _ => "bad-op"
   | ["M", spec, "pack", msg] =>
     some <| match (Tree.ofString spec).bind msgSpecOfTree, (Tree.ofString msg).bind msgOfTree with
     | some s, some m => showRes (s.pack m)
